@@ -657,7 +657,7 @@ Definition exec (fuel : nat) (line : N) (s : stmt) (rest : kont) : sst -> sst * 
            end)
   | STron _ => run (sdo _ <~ (fun st => (with_trace st true (Some line), EvOk tt)) ;; continue_)
   | STroff _ => run (sdo _ <~ (fun st => (with_trace st false (s_tr st), EvOk tt)) ;; continue_)
-  | SCls _ => run (sdo _ <~ (fun st => (emit st SeCls, EvOk tt)) ;; continue_)
+  | SCls _ => run (sdo _ <~ (fun st => (with_col (emit st SeCls) 0, EvOk tt)) ;; continue_)
   | SClear _ =>
       run (sdo _ <~ (fun st => (with_rand (with_fns (with_dpos (with_frames (with_vars st vars_empty) []) 0) []) None, EvOk tt)) ;;
            continue_)
